@@ -458,6 +458,8 @@ def short(e, depth=12):
         return "p%d" % e[1]
     if t == "upvar":
         return "^%s" % e[1]
+    if t == "cparam":
+        return "c%d" % e[1]
     if t == "const":
         return e[2].replace("const ", "")
     if t == "fnitem":
